@@ -49,7 +49,37 @@ class NamingScenario(StateScenario):
         h["p_fault"] = 0.0
         h["ncfg"] = 1
         h["p_bad_arg"] = stream(seed, "c16").choice([0.0, 0.15, 0.3])
+        # a third of the schemas are bound to the environment, with some of the variables set to valid values: options
+        # supplied on the command line are assignments and override them like any other value
+        erng = stream(seed, "c16-env")
+        if erng.random() < 0.33:
+            from .environment import env_names
+            from ..world import World
+            sd = h["sd"]
+            sd["root"]["env"] = erng.choice([True, "APP"])
+            w = World(seed)
+            values.seed_world(w)
+            ctx = values.Ctx(w)
+            env = {}
+            names = env_names(sd)
+            for path, name in sorted(names.items()):
+                if list(names.values()).count(name) > 1:
+                    continue          # two fields sharing one derived name: a value valid for one need not be valid for the other
+                node = schema.node_at(sd, path)
+                if node is None or node["kind"] not in STR_KINDS + INT_KINDS + BOOL_KINDS + ("float",) or node["kind"] in ("include", "filename", "featureflag"):
+                    continue
+                if erng.random() < 0.5:
+                    for _ in range(10):
+                        v = values.gen_value(erng, node, "valid", ctx)
+                        if isinstance(v, str) and v and "\x00" not in v and isinstance(model.norm(node, v, ctx), OK):
+                            env[name] = v
+                            break
+            h["env"] = env
         return h
+
+    def start(self, header, world, rec):
+        world.env.update(header.get("env", {}))
+        return super().start(header, world, rec)
 
     def _want(self, st, rng):
         return "valid"
